@@ -135,7 +135,7 @@ Proof.
   intros Hm HA HT0 E HT. pose proof HT0 as [U F]. pose proof (la_sinv _ _ _ HA) as I.
   destruct HT as [e isack s' o nw kp k nwa Hev Hstep Ho Hnow Hsnd Hsink Hn2 Hslog Hn1 Hwd Hif HA' Hkp Hkeep Hpkt
                  | id r Hev Hfind Hk Hwd Hwa HA' | Hev Hk Hwd Hwa Hag | Hev Hk Hwa Hwd HA' | Hev Hk Hwd Hwa HA'
-                 | id tm ct Hev Hp Hq Hk Hwd Hwa HA' | ackno pid tm ct Hev Hq Hk Hwd Hwa HA'
+                 | id Hev Hq Hk Hwd Hwa HA' | ackno pid tm ct Hev Hq Hk Hwd Hwa HA'
                  | id tm ct Hev Hp Hnow Hsnd Hpkt Hn1 Hslog Hsink Hn2 Hwd Hif].
   - (* sender *)
     destruct (step_timers _ _ _ _ _ Hm I Hstep) as (Hns & Hnew & Hkeys).
@@ -352,7 +352,7 @@ Proof.
   assert (Aak : forall k, ackno_of (ae_ev a) = Some k -> mult (mss (lc_cfg lc)) k) by (intros k Hk; apply (Mea a k); [rewrite E; left; reflexivity|exact Hk]).
   destruct HT as [e isack s' o nw kp k nwa Hev Hstep Ho Hnow Hsnd Hsink Hn2 Hslog Hn1 Hwd Hif HA' Hkp Hkeep Hpkt
                  | id r Hev Hfind Hk Hwd Hwa HA' | Hev Hk Hwd Hwa Hag | Hev Hk Hwa Hwd HA' | Hev Hk Hwd Hwa HA'
-                 | id tm ct Hev Hp Hq Hk Hwd Hwa HA' | ackno pid tm ct Hev Hq Hk Hwd Hwa HA'
+                 | id Hev Hq Hk Hwd Hwa HA' | ackno pid tm ct Hev Hq Hk Hwd Hwa HA'
                  | id tm ct Hev Hp Hnow Hsnd Hpkt Hn1 Hslog Hsink Hn2 Hwd Hif].
   - (* sender *)
     assert (Hle : last_ack (l_snd st) <= next_seq (l_snd st)).
